@@ -224,3 +224,12 @@ for arch, hs_all in BCJ_SPLIT.items():
       kind="bounded", bound="streams of 10..34 arbitrary bytes cut at the listed offsets, every aligned start < 2^40, both directions",
       functions=[("src/filter/bcj/" + fl, {"arm": "arm_code", "thumb": "arm_thumb_code", "arm64": "arm64_code", "ppc": "ppc_code", "sparc": "sparc_code", "x86": "x86_code", "ia64": "ia64_code", "riscv": "riscv_code"}[arch])],
       contract="filtering a stream in one call = filtering a prefix, then the unconverted tail re-presented with the rest: same bytes, same final position, same carried state (x86 prev_mask)")
+
+U(id="C01.l2.hdr.r", props=["C01", "C03", "C04", "C06", "C16", "C05"], file="lzma2_reader.rs",
+  harnesses=["c01_l2_chunk_header"], thorough_harnesses=["c05_l2_chunk_header_truncated"],
+  contract_stubs=["payload layer: LZMADecoder::new -> zeroed (ghost args), LZMADecoder::reset -> ghost count, RangeDecoder::prepare -> ghost compressed size"],
+  functions=[("src/lzma2_reader.rs", "decode_chunk_header"), ("src/lzma2_reader.rs", "decode_props"), ("src/lzma2_reader.rs", "new", "LZMA2Reader")],
+  contract="forall 6 header bytes x flag states: LZMA2 control grammar of the xz spec (0 end; 1/2 uncompressed with/without dict reset; 3..7F invalid; 80..FF LZMA with state/props/dict reset bits), sizes decoded big-endian +1, props<=224 and lc+lp<=4, missing dict reset / props rejected, exact bytes consumed; truncated header is an error")
+U(id="C17.dec.lzma2", props=["C17", "C06"], file="lzma2_reader.rs", harnesses=["c17_lzma2_memory_usage"], stubs=[],
+  functions=[("src/lzma2_reader.rs", "get_dict_size"), ("src/lzma2_reader.rs", "get_memory_usage")],
+  contract="forall dict_size:u32: no overflow; rounded dictionary is a multiple of 16 covering dict_size; estimate >= dictionary + 64 KiB chunk buffer and within 104 KiB of it")
